@@ -23,14 +23,13 @@ from .c10 import id_filters
 NARROW = ("float32", "float16", "int8", "int16", "int32", "uint8", "uint16", "uint32", "half", "single")
 
 
-def no_narrowing(ck, rule):
+def no_narrowing(ck, rule, modules=("src.parsers.cmap_reader", "src.parsers.bionano_file_reader"), floor=8):
     """Label coordinates and lengths are carried at full precision from the file to the OpticalMap: no astype()/dtype=
     to a narrower numeric type, no rounding, in the reader chain (a float32 cannot represent coordinates above 16.7 Mb
     to 1 bp)."""
     ctx = ck.ctx
     p = ctx.p
-    fns = [f for f in p.nontest_functions() if f.module.name in ("src.parsers.cmap_reader", "src.parsers.bionano_file_reader")
-           and not f.is_lambda]
+    fns = [f for f in p.nontest_functions() if f.module.name in modules and not f.is_lambda]
     n = 0
     for f in fns:
         for node in ast.walk(f.node):
@@ -51,8 +50,55 @@ def no_narrowing(ck, rule):
             elif name in ("round", "floor", "ceil", "trunc") and "Position" in text:
                 ck.violation(rule, short(f) + ":" + name, where(f, node), "label coordinates are rounded while reading",
                              found=text[:160])
-    ck.floor(f"{rule} calls inspected in the reader chain", n, 8)
+    # a narrow dtype named anywhere in the chain (a dtype table built first and handed to the reader later)
+    for f in fns:
+        for node in ast.walk(f.node):
+            if isinstance(node, (ast.Attribute, ast.Name, ast.Constant)):
+                txt = node.attr if isinstance(node, ast.Attribute) else node.id if isinstance(node, ast.Name) else node.value
+                if isinstance(txt, str) and txt in NARROW:
+                    ck.violation(rule, short(f) + ":narrow-type", where(f, node), "a narrow numeric type is named in the reader chain: "
+                                 "coordinates above 2^24 read through it are off by one or two base pairs", found=str(txt),
+                                 required="default (64-bit) dtypes")
+    ck.floor(f"{rule} calls inspected in the reader chain", n, floor)
     ck.ok(rule, "reader-chain:precision", fns[0].where if fns else "", f"{n} calls in the CMAP reader chain: no narrowing conversion of coordinates")
+
+
+ROW_CHANGING = {"drop_duplicates": "drops rows that agree on the compared columns",
+                "dropna": "drops rows with missing values", "head": "keeps the first rows only", "tail": "keeps the last rows only",
+                "sample": "draws rows at random", "nlargest": "keeps n rows", "nsmallest": "keeps n rows",
+                "reindex": "repeats or drops entries according to the new index", "reindex_like": "re-indexes",
+                "truncate": "cuts rows", "drop": "removes rows or columns", "query": "filters rows by an expression",
+                "duplicated": "marks repeated rows (for removal)", "unique": "collapses repeated values",
+                "first": "keeps one row per group", "last": "keeps one row per group", "nth": "keeps one row per group"}
+
+
+def frame_integrity(ck, rule, modules=("src.parsers.cmap_reader", "src.parsers.bionano_file_reader")):
+    """The table read from the file reaches the per-molecule parser row for row: between read_csv and the groupby nothing is
+    applied to it that removes, repeats or collapses rows - the only reduction is the `isin` filter on the id column.
+    (Purely syntactic and exact for the pandas operations it names; the pinned readers use none of them.)"""
+    ck.clause(rule, "no row of the file is dropped, repeated or merged while reading: the only reduction of the table is the id filter")
+    p = ck.ctx.p
+    fns = [f for f in p.nontest_functions() if f.module.name in modules and not f.is_lambda]
+    n = 0
+    hit = False
+    for f in fns:
+        for node in ast.walk(f.node):
+            if isinstance(node, ast.Call) and isinstance(node.func, ast.Attribute):
+                n += 1
+                if node.func.attr == "drop" and (any(k.arg == "columns" for k in node.keywords) or any(
+                        k.arg == "axis" and ast.unparse(k.value) in ("1", "'columns'", '"columns"') for k in node.keywords)):
+                    continue              # dropping a column keeps every row
+                if node.func.attr in ROW_CHANGING:
+                    hit = True
+                    ck.violation(rule, short(f) + ":" + node.func.attr, where(f, node),
+                                 f"`{node.func.attr}` is applied to the table while reading ({ROW_CHANGING[node.func.attr]}): label "
+                                 "rows of the file no longer reach the molecule one for one - two labels at the same coordinate, "
+                                 "an id listed twice in the filter, or rows of *another* molecule decide what a molecule looks like",
+                                 found=ast.unparse(node)[:140], required="read_csv -> [isin filter on the id column] -> groupby")
+    ck.floor(f"{rule} method calls inspected in the reader chain", n, 8)
+    if not hit:
+        ck.ok(rule, "reader-chain:rows", fns[0].where if fns else "", f"{n} method calls in the reader chain: none removes, repeats or "
+              "collapses rows")
 
 
 def column_names(ck, rule):
@@ -142,6 +188,7 @@ def run(ck):
     id_filters(ck, "C17.3", "C17.1")
     reader_is_stateless(ck, "C17.7")
     column_names(ck, "C17.8")
+    frame_integrity(ck, "C17.9")
     cr = p.find_class("CmapReader")
     from ..rules.common import cmap_reader_methods
     read, parse = cmap_reader_methods(ck)
